@@ -33,7 +33,9 @@ class LogicalMeta(type):
 
     def __and__(cls: T, other: T) -> Union[T, OTHER]:
         if isinstance(other, LogicalType):
-            return other.__rand__(cls)  # noqa
+            # look the reflected operator up on the metaclass, as Python's own dispatch does:
+            # `other.__rand__` would find int.__rand__ for a Rule subclass of int
+            return type(other).__rand__(other, cls)
         return cls.__logical_type__.combine("&", cls, other)
 
     def __rand__(cls: T, other: OTHER) -> Union[OTHER, T]:
@@ -43,7 +45,9 @@ class LogicalMeta(type):
         if getattr(other, "__origin__", None) == Union:
             return cls.__logical_type__.combine("|", cls, *other.__args__)
         if isinstance(other, LogicalType):
-            return other.__ror__(cls)  # noqa
+            # look the reflected operator up on the metaclass, as Python's own dispatch does:
+            # `other.__ror__` would find int.__ror__ for a Rule subclass of int
+            return type(other).__ror__(other, cls)
         return cls.__logical_type__.combine("|", cls, other)
 
     def __ror__(cls: T, other: OTHER) -> Union[OTHER, T]:
@@ -53,7 +57,9 @@ class LogicalMeta(type):
 
     def __xor__(cls: T, other: OTHER) -> Union[T, OTHER]:
         if isinstance(other, LogicalType):
-            return other.__rxor__(cls)  # noqa
+            # look the reflected operator up on the metaclass, as Python's own dispatch does:
+            # `other.__rxor__` would find int.__rxor__ for a Rule subclass of int
+            return type(other).__rxor__(other, cls)
         return cls.__logical_type__.combine("^", cls, other)
 
     def __rxor__(cls: T, other: OTHER) -> Union[OTHER, T]:
